@@ -61,6 +61,8 @@ def tokens(line):
             if line[pos:].strip() == '': break
             raise ILError('cannot tokenise %r at %d' % (line, pos))
         out.append(m.group(1)); pos = m.end()
+        # `thread $sym` as an operand: one thread only, the symbol itself
+        if len(out) >= 2 and out[-2] == 'thread' and out[-1].startswith('$'): del out[-2]
     return out
 
 
